@@ -134,10 +134,13 @@ def decode_performance(
         snote_ids = [n["id"] for n in snotes]
         snote_info = snotes
     else:
-        snote_info = snotes[np.isin(snotes["id"], snote_ids)]
+        # the rows of performance_array are in the order of snote_ids
+        row_by_id = dict((nid, i) for i, nid in reversed(list(enumerate(snotes["id"]))))
+        snote_info = snotes[[row_by_id[nid] for nid in snote_ids]]
 
     # sort
     sort_idx = np.lexsort((snote_info["pitch"], snote_info["onset_div"]))
+    snote_ids = [snote_ids[i] for i in sort_idx]
 
     onsets = snote_info["onset_beat"][sort_idx]
     durations = snote_info["duration_beat"][sort_idx]
@@ -186,9 +189,9 @@ def decode_performance(
 
     if return_alignment:
         alignment = []
-        for snote, pnote in zip(snote_info, ppart.notes):
+        for snote_id, pnote in zip(snote_ids, ppart.notes):
             alignment.append(
-                dict(label="match", score_id=snote["id"], performance_id=pnote["id"])
+                dict(label="match", score_id=snote_id, performance_id=pnote["id"])
             )
 
         return ppart, alignment
